@@ -1,6 +1,8 @@
 """C20 — Reported progress is a proper weighted fraction.
 Implementation driven: FlowIRConcrete(...) -> inject_default_values (weights), the real
-StatusMonitor.__init__ (re-check) and the real CheckStatus closure of StatusMonitor.run (total progress)."""
+StatusMonitor.__init__ (re-check and its own fallback) and the real CheckStatus closure of StatusMonitor.run (total
+progress); malformed weights through both consumers and through the monitor alone (_explore_malformed); the real
+Controller.get_stages_finished/get_stages_in_transit while DoWhile iterations add nodes (_explore_controller)."""
 import os
 import tempfile
 import shutil
@@ -28,11 +30,23 @@ ASSUMPTIONS = [
     'SF2Prim_Prim2SF, Prim2SF_SF2Prim (Coq.Floats.FloatAxioms: the primitives implement IEEE-754 binary64); '
     'the PrimFloat/PrimInt63 primitives',
     'StatusMonitor is driven with a duck-typed experiment/controller (fakes trusted)',
+    'malformed weights (Model.wt): whether a text is numeric, unparsable (ValueError) or nan/inf is decided by Python\'s '
+    'float() itself in the harness; objects float() refuses with TypeError are None, a list, a mapping; the value an '
+    'unconvertible entry counts as in StatusMonitor.__init__ (fallbackWeight*1000) is modelled as the rational 1000/n '
+    '(equal to the code\'s decimal whenever 1000/n terminates, checked n <= 5000; generated n <= 2000); a load that '
+    'raises (TypeError for None/list/mapping) counts as "no workflow loaded"; the new theorems C20_malformed_weights, '
+    'C20_monitor_weights, C20_weights_numbers, C20_used_progress, C20_stage_lists are closed under the global context '
+    '(no axiom)',
+    'controller family: the real Controller and CheckStatus are driven by harness/c20_ctl.py (terminations delivered '
+    'through Controller.finishedCheck, nothing is launched; harness/c05_impl.py documents/_new_controller imported '
+    'read-only); a node counts as active until finishedCheck returned for it',
 ]
 HEADER = 'Require Import V.Weights.Model.\nOpen Scope Z_scope.'
 CHECKER = 'check_case'
 FHEADER = 'Require Import V.Weights.FloatModel.\nFrom Coq Require Import PrimFloat.'
 FCHECKER = 'check_fcase'
+WCHECKER = 'check_wcase'     # load (inject_default_values) then report (StatusMonitor.__init__), malformed entries
+MCHECKER = 'check_mcase'     # the monitor alone on a status-report set after loading
 
 
 def cfloat(x):
@@ -198,7 +212,13 @@ def run(ctx):
     import experiment.model.frontends.flowir as F
     ctx.rule = ('n stages x weight assignment kind (missing / exact three decimals summing to one / with missing '
                 'entries / three decimals not summing to one / with a negative entry / four decimals / 5-12 decimals); '
-                'non-trivial = at least 2 stages and at least one given weight; distinct by (n, given list)')
+                'non-trivial = at least 2 stages and at least one given weight; distinct by (n, given list); '
+                'malformed family: n stages x shape (a malformed entry while the rest sums to one / well-formed numbers '
+                'written as texts, booleans, ints or missing / not summing to one / a negative numeric text / nothing '
+                'usable) x kind of malformed entry (unparsable text, nan or inf as float or text, None/list/mapping), '
+                'loaded through inject_default_values and then StatusMonitor, or set after loading (the monitor alone); '
+                'controller family: DoWhile over 1-4 stages x 1-2 components per stage x 1-3 iterations x plain stage '
+                'before/after x order of the terminations, through the real Controller and the real CheckStatus')
     rng = ctx.rng
     ns = list(range(1, 61)) + [99, 100, 101, 333, 999, 1000, 1001, 1500]
     kinds = ['missing', 'exact3', 'exact3_some_missing', 'off3', 'negative', 'four']
@@ -218,6 +238,13 @@ def run(ctx):
     # every stage complete, fixed: ten stages of 0.1 report 0.9999999999999999 (within the proved bound, not 1.0)
     _explore(ctx, [(10, [1000] * 10), (10, [2000, 3000, 5000]), (10, [None] * 7)], complete=True)
     ctx.count('cases', len(cases) + 3)
+    # malformed weights through both consumers (load, then the monitor) and through the monitor alone
+    load, direct = malformed_cases(rng, ctx.tier)
+    _explore_malformed(ctx, load, direct=False)
+    _explore_malformed(ctx, direct, direct=True)
+    ctx.count('malformed_cases', len(load) + len(direct))
+    # the real Controller driven through DoWhile iterations: which stages the report counts
+    _explore_controller(ctx, CTL_CORPUS + [gen_ctl(rng) for _ in range(3 if ctx.tier == 'quick' else 24)])
 
 
 def replay(ctx, path):
@@ -226,15 +253,482 @@ def replay(ctx, path):
     d = json.load(open(path))
     c = d.get('case') or d.get('first', {}).get('case')
     ms = c.get('given') if isinstance(c, dict) else None
+    if isinstance(c, dict) and c.get('controller'):
+        _explore_controller(ctx, [c['controller']])
+        ms = ()
+    if isinstance(c, dict) and c.get('malformed'):
+        mc = c['malformed']
+        _explore_malformed(ctx, [(mc['scale'], mc['entries'])], direct=bool(mc.get('direct')))
+        ms = ()
     if ms is None:
         print('replay file names no input (proof/correspondence obligation): re-run ./check C20')
         return 2
-    _explore(ctx, [(c.get('scale', 10), ms)])
+    if ms != ():
+        _explore(ctx, [(c.get('scale', 10), ms)])
     for f in ctx.failures:
         print('REPRODUCED: %s on %s' % (f['what'], f['case']))
     for f in ctx.disagreements:
         print('DISAGREEMENT: %s' % (f,))
     return 1 if (ctx.failures or ctx.disagreements) else 0
+
+
+# ----------------------------------------------------------------------------------------------------------
+# MALFORMED weights: an entry of the status-report is described by a JSON-able tag list
+#   ['num', m]            the float m/U                      ['int', k]   the int k (0 or 1)
+#   ['bool', b]           True / False                       ['missing']  no entry / no key
+#   ['text', s, m|None]   the text s; float(s) is m/U or raises ValueError (None)
+#   ['nan', s]            s in NAN_FLOATS: that float; otherwise the text s (float(s) is nan or +-inf)
+#   ['bad', s]            'none' | 'list' | 'dict': float() raises TypeError
+# (U = 1000 c units per one).  Model type: Weights.Model.wt.
+MISSING = object()
+UNPARSABLE = ['n/a', '', ' ', 'high', '0,5', '50%', '1/3', '0.5.0', 'None', 'true', 'tbd', '--', '0x10', '1e', 'O.5',
+              'half', '0.5 0.5', '.']
+NAN_FLOATS = ['fnan', 'finf', 'f-inf']
+NAN_TEXTS = ['nan', 'NaN', 'inf', '-inf', 'Infinity', '+infinity', ' nan ', '-Infinity']
+BAD = ['none', 'list', 'dict']
+
+
+def dec(m, U):
+    """the decimal m/U written out exactly (U a power of ten)"""
+    d = len(str(U)) - 1
+    sign = '-' if m < 0 else ''
+    a = abs(m)
+    return '%s%d.%s' % (sign, a // U, str(a % U).rjust(d, '0'))
+
+
+def numeric_text(rng, m, U):
+    d = len(str(U)) - 1
+    form = rng.randrange(7)
+    t = dec(m, U)
+    if form == 1:
+        t = ' ' + t + ' '
+    elif form == 2 and m >= 0:
+        t = '+' + t
+    elif form == 3:
+        t = '%de-%d' % (m, d)
+    elif form == 4:
+        t = t + '00'
+    elif form == 5:
+        t = '\t' + t + '\n'
+    elif form == 6:
+        t = '%dE-%d' % (m, d)
+    if Fraction(repr(float(t))) * U != m:      # cannot happen for <= 15 significant digits
+        t = dec(m, U)
+    return ['text', t, m]
+
+
+def raw_of(e, U):
+    k = e[0]
+    if k == 'num':
+        return float(Fraction(e[1], U))
+    if k == 'int':
+        return int(e[1])
+    if k == 'bool':
+        return bool(e[1])
+    if k == 'missing':
+        return MISSING
+    if k == 'text':
+        return e[1]
+    if k == 'nan':
+        return float(e[1][1:]) if e[1] in NAN_FLOATS else e[1]
+    if k == 'bad':
+        return {'none': None, 'list': [0.5], 'dict': {'w': 0.5}}[e[1]]
+    raise ValueError(e)
+
+
+def wt_of(e, U):
+    k = e[0]
+    if k == 'num':
+        return '(WNum %s)' % cZ(e[1])
+    if k == 'int':
+        return '(WNum %s)' % cZ(e[1] * U)
+    if k == 'bool':
+        return '(WNum %s)' % cZ(U if e[1] else 0)
+    if k == 'missing':
+        return 'WMissing'
+    if k == 'text':
+        return '(WText %s)' % ('None' if e[2] is None else '(Some %s)' % cZ(e[2]))
+    if k == 'nan':
+        return 'WNan'
+    return 'WBad'
+
+
+def value_of(e, U):
+    """the number a clean entry stands for (units), None for nan / unparsable / bad"""
+    k = e[0]
+    if k == 'num':
+        return e[1]
+    if k == 'int':
+        return e[1] * U
+    if k == 'bool':
+        return U if e[1] else 0
+    if k == 'missing':
+        return 0
+    if k == 'text':
+        return e[2]
+    return None
+
+
+def wt_of_raw(x, U):
+    """canonical form (Coq term of type wt) of what the implementation holds in a status-report entry;
+    None when it is a number that is not a whole number of units"""
+    import math
+    if x is MISSING:
+        return 'WMissing'
+    if isinstance(x, (bool, int, float)):
+        f = float(x)
+        if math.isnan(f) or math.isinf(f):
+            return 'WNan'
+        q = Fraction(repr(f)) * U
+        return '(WNum %s)' % cZ(int(q)) if q.denominator == 1 else None
+    if isinstance(x, (str, bytes)):
+        try:
+            f = float(x)
+        except ValueError:
+            return '(WText None)'
+        if math.isnan(f) or math.isinf(f):
+            return 'WNan'
+        q = Fraction(repr(f)) * U
+        return '(WText (Some %s))' % cZ(int(q)) if q.denominator == 1 else None
+    return 'WBad'
+
+
+def exact_used(x, n):
+    """the exact value a weight in use stands for: the monitor's own fallback 1.0/n is 1/n, anything else is
+    the decimal it prints as.  None: not a finite number"""
+    import math
+    try:
+        f = float(x)
+    except Exception:
+        return None
+    if math.isnan(f) or math.isinf(f):
+        return None
+    if f == 1.0 / n:
+        return Fraction(1, n)
+    return Fraction(repr(f))
+
+
+def render_clean(rng, m, U, fancy):
+    """a well-formed entry of value m units; fancy = probability of a form other than a float"""
+    if rng.random() >= fancy:
+        return ['num', m]
+    r = rng.random()
+    if m == 0 and r < 0.35:
+        return ['missing']
+    if m in (0, U) and r < 0.55:
+        return ['bool', m == U] if rng.random() < 0.5 else ['int', m // U]
+    return numeric_text(rng, m, U)
+
+
+def special(rng, kinds):
+    k = rng.choice(kinds)
+    if k == 'unparsable':
+        return ['text', rng.choice(UNPARSABLE), None]
+    if k == 'nan':
+        return ['nan', rng.choice(NAN_FLOATS + NAN_TEXTS)]
+    return ['bad', rng.choice(BAD)]
+
+
+def composition(rng, total, parts):
+    if parts == 0:
+        return []
+    cuts = sorted(rng.randint(0, total) for _ in range(parts - 1))
+    return [b - a for a, b in zip([0] + cuts, cuts + [total])]
+
+
+def gen_malformed(rng, n, direct=False):
+    """-> (c, entries, shape).  direct: entries for a status-report set after loading (the monitor alone)"""
+    c = rng.choice([1, 10, 10, 100, 10 ** rng.randint(3, 6)])
+    U = 1000 * c
+    shapes = ['rest_one'] * 7 + ['clean_forms_one'] * 4 + ['rest_off'] * 4 + ['negative_text'] * 2 + ['all_special'] * 3
+    shape = rng.choice(shapes)
+    if shape == 'rest_one' or shape == 'rest_off':
+        k = rng.randint(1, min(n, 3))
+        kinds = rng.choice([['unparsable'], ['unparsable'], ['unparsable'], ['nan'], ['bad'] if not direct else ['unparsable', 'bad'],
+                            ['unparsable', 'nan', 'bad']])
+        if shape == 'rest_one':
+            vals = composition(rng, U, n - k)
+        else:
+            vals = [rng.randint(0, max(1, 2 * U // n)) for _ in range(n - k)]
+        ent = [render_clean(rng, m, U, 0.25) for m in vals] + [special(rng, kinds) for _ in range(k)]
+        if direct and rng.random() < 0.3:
+            ent[-1] = ['missing']                        # a missing key counts as fallbackWeight * 1000 in the monitor
+        rng.shuffle(ent)
+    elif shape == 'clean_forms_one':
+        ent = [render_clean(rng, m, U, 0.7) for m in composition(rng, U, n)]
+    elif shape == 'negative_text':
+        vals = composition(rng, U, n)
+        if n >= 2:
+            i, j = rng.sample(range(n), 2)
+            dlt = rng.randint(1, U // 2)
+            vals[i] += dlt + vals[j]
+            vals[j] = -dlt
+        else:
+            vals = [-rng.randint(1, U)]
+        ent = [numeric_text(rng, m, U) if (m < 0 or rng.random() < 0.3) else ['num', m] for m in vals]
+    else:
+        ent = [special(rng, ['unparsable', 'unparsable', 'nan']) if rng.random() < 0.8 else ['missing'] for _ in range(n)]
+    return c, ent, shape
+
+
+MALFORMED_CORPUS = [
+    # (c, entries): the boundary cases of each class, fixed
+    (10, [['text', 'n/a', None], ['num', 4000], ['num', 6000]]),                 # unparsable + rest sums to one, n = 3
+    (10, [['num', 5000], ['num', 5000], ['text', '', None], ['num', 0], ['num', 0], ['num', 0], ['num', 0]]),   # n = 7
+    (10, [['num', 5000], ['text', 'high', None], ['num', 2500], ['num', 2500]]),  # n = 4 divides 1000
+    (1, [['num', 100], ['num', 200], ['text', 'tbd', None], ['num', 300], ['num', 400], ['missing']]),          # n = 6
+    (10, [['text', 'n/a', None]]),                                               # n = 1: nothing sums to one
+    (10, [['text', 'n/a', None], ['text', '', None], ['num', 10000]]),           # two unparsable texts
+    (10, [['nan', 'fnan'], ['num', 4000], ['num', 6000]]),                       # nan: never accepted
+    (10, [['nan', 'finf'], ['num', 4000], ['num', 6000]]), (10, [['nan', 'f-inf'], ['num', 10000]]),
+    (10, [['nan', 'nan'], ['num', 4000], ['num', 6000]]), (10, [['nan', 'Infinity'], ['num', 10000]]),
+    (10, [['bool', True], ['num', 0], ['num', 0]]), (10, [['bool', True], ['num', 5000], ['num', 5000]]),
+    (10, [['bool', False], ['num', 4000], ['num', 6000]]), (10, [['int', 1], ['int', 0]]),
+    (10, [['text', '0.4', 4000], ['text', '0.6', 6000]]), (10, [['text', ' 0.5 ', 5000], ['num', 5000]]),
+    (10, [['text', '0.5', 5000], ['num', 2500]]), (10, [['text', '-0.5', -5000], ['num', 15000]]),
+    (10, [['text', '1e-3', 10], ['num', 9990]]),
+    (10, [['bad', 'none'], ['num', 4000], ['num', 6000]]), (10, [['bad', 'list'], ['num', 10000]]),
+    (10, [['num', 10000], ['bad', 'dict']]), (10, [['missing'], ['text', 'n/a', None], ['bool', True]]),
+]
+DIRECT_CORPUS = [
+    (10, [['missing'], ['num', 5000]]), (10, [['bad', 'none'], ['num', 4000], ['num', 6000]]),
+    (10, [['num', 3330], ['num', 3330], ['num', 3330]]), (10, [['num', 15000], ['num', -5000]]),
+    (10, [['text', 'n/a', None], ['num', 4000], ['num', 6000]]), (10, [['nan', 'fnan'], ['num', 10000]]),
+    (10, [['num', 2000], ['num', 3000], ['num', 5000]]), (10, [['text', '0.4', 4000], ['num', 6000]]),
+    # the value an unconvertible entry counts as (fallbackWeight * 1000 = 1000/n) can itself complete the sum
+    (1, [['text', 'n/a', None]] + [['num', 0]] * 999),
+    (1, [['missing'], ['num', 500]] + [['num', 0]] * 1998),
+]
+
+
+def _explore_malformed(ctx, cases, direct):
+    """cases: [(c, entries)].  not direct: FlowIRConcrete(document) -> inject_default_values -> the status-report of
+    the loaded FlowIR -> StatusMonitor.__init__ -> the weights in use -> CheckStatus.  direct: the status-report of a
+    loaded FlowIRConcrete is set to the entries afterwards (no validation, no normalisation), then the monitor."""
+    import experiment.model.frontends.flowir as F
+    rng = ctx.rng
+    mon = _Mon()
+    terms, tcases = [], []
+    fterms, fcases = [], []
+    D = 8
+    try:
+        for c, ent in cases:
+            n = len(ent)
+            U = 1000 * c
+            raws = [raw_of(e, U) for e in ent]
+            case = {'malformed': {'scale': c, 'entries': ent, 'direct': direct}}
+            kinds = set(e[0] if e[0] != 'text' else ('text_numeric' if e[2] is not None else 'text_unparsable') for e in ent)
+            for k in sorted(kinds):
+                ctx.count(('direct:' if direct else 'load:') + k)
+            ctx.case(['malformed', direct, c, ent], n >= 2 and bool(kinds - {'num', 'missing'}))
+            has_bad = any(e[0] == 'bad' for e in ent)
+            given_term = clist([wt_of(e, U) for e in ent], str)
+            loaded_term = None
+            concrete = None
+            if direct:
+                concrete = F.FlowIRConcrete(_raw_doc([1.0] + [0.0] * (n - 1)), 'default', {})
+                st = concrete.get_status(return_copy=False)
+                for i, x in enumerate(raws):
+                    if x is MISSING:
+                        st[i].pop('stage-weight', None)
+                    else:
+                        st[i]['stage-weight'] = x
+            else:
+                try:
+                    concrete = F.FlowIRConcrete(_raw_doc(raws), 'default', {})
+                except Exception as exc:
+                    ctx.count('load_raises:' + type(exc).__name__)
+                    concrete = None
+                    if not has_bad:
+                        ctx.fail(case, 'loading raised %s although every weight is a number, a text or missing'
+                                 % type(exc).__name__, [])
+                if concrete is not None:
+                    if n <= 60 and rng.random() < 0.5:
+                        try:
+                            verrs = [e for e in concrete.validate() if 'stage-weight' in str(e)]
+                        except Exception:
+                            verrs = ['raised']
+                        ctx.count('validation_rejects_the_weights' if verrs else 'validation_accepts_the_weights')
+                    st = concrete.get_status()
+                    loaded = [st.get(i, {}).get('stage-weight', MISSING) for i in range(n)]
+                    lt = [wt_of_raw(x, U) for x in loaded]
+                    if any(t is None for t in lt):
+                        ctx.fail(dict(case, loaded=[repr(x) for x in loaded]),
+                                 'a loaded stage weight is not a multiple of the unit 1/(1000c)', [])
+                    else:
+                        loaded_term = '(Some %s)' % clist(lt, str)
+            if concrete is None:
+                terms.append(cpair(cpair(cZ(c), given_term), cpair('None', 'None')))
+                tcases.append(case)
+                continue
+            # ---- the weights the monitor uses
+            try:
+                m_, rec = mon.monitor(concrete, n)
+            except Exception as exc:
+                ctx.fail(case, 'StatusMonitor raised %s on the weights of the loaded workflow' % type(exc).__name__, [])
+                continue
+            mw = list(m_.stageWeights)
+            q = [exact_used(x, n) for x in mw]
+            shown = dict(case, used=[repr(x) for x in (mw if n <= 12 else mw[:4] + ['...'] + mw[-2:])])
+            ok = len(mw) == n and all(x is not None for x in q)
+            if not ok:
+                ctx.fail(shown, 'the weights in use are not one finite number per stage', [])
+                continue
+            if any(x < 0 for x in q):
+                ctx.fail(shown, 'negative stage weight in use by the status monitor', [])
+            if sum(q) != 1:
+                ctx.fail(dict(shown, sum=str(sum(q))), 'the weights in use by the status monitor do not sum to one', [])
+            vals = [value_of(e, U) for e in ent]
+            clean = all(v is not None for v in vals) and (not direct or all(e[0] != 'missing' for e in ent))
+            if clean and all(v >= 0 for v in vals) and sum(vals) == U:
+                ctx.count('well_formed_weights_summing_to_one')
+                if [x * U for x in q] != vals:
+                    ctx.fail(shown, 'given weights summing to one are not the weights in use', [])
+            fine = [x * U * n for x in q]
+            if all(x.denominator == 1 for x in fine):
+                used_term = clist([int(x) for x in fine], cZ)
+                if direct:
+                    terms.append(cpair(cpair(cZ(c), given_term), used_term))
+                    tcases.append(shown)
+                elif loaded_term is not None:
+                    terms.append(cpair(cpair(cZ(c), given_term), cpair(loaded_term, '(Some %s)' % used_term)))
+                    tcases.append(shown)
+            else:
+                ctx.fail(shown, 'a weight in use is neither 1/n nor a multiple of the unit 1/(1000c)', [])
+            if all(x == Fraction(1, n) for x in q) and not all(v is not None and v * n == U for v in vals):
+                ctx.count('monitor_uses_its_own_equal_weights')
+            # ---- progress with the weights in use
+            valid_w = all(x >= 0 for x in q) and sum(q) == 1
+            for complete in ((True,) if rng.random() < 0.5 else (False,)):
+                prog = [D] * n if complete else [rng.randint(0, D) for _ in range(n)]
+                cur = n - 1 if complete else rng.randrange(n)
+                finished = [i for i in range(n) if prog[i] == D and i != cur and (complete or rng.random() < 0.8)]
+                transit = [i for i in range(n) if i not in finished and i != cur and prog[i] > 0]
+                contributing = set(finished) | set(transit) | {cur}
+                tp = mon.total_progress(m_, rec, n, cur, transit, finished, [Fraction(p, D) for p in prog])
+                expect = sum(Fraction(prog[i], D) * q[i] for i in contributing)
+                pcase = dict(case, prog=prog, cur=cur, finished=finished, transit=transit, total=tp)
+                if tp is None or abs(Fraction(tp) - expect) > proved_bound(len(contributing), expect):
+                    ctx.disagree(pcase, tp, float(expect), 'C20 total progress with the weights in use: CheckStatus vs '
+                                 'Weights.Model.total within the bound of C20_float_progress')
+                if tp is None:
+                    continue
+                if valid_w and not (0 <= Fraction(tp) <= 1 + proved_bound(n, 1)):
+                    ctx.fail(pcase, 'total progress outside [0,1]', [])
+                if complete and abs(Fraction(tp) - 1) > proved_bound(n, 1):
+                    ctx.fail(pcase, 'total progress is not one when every stage completed', [])
+                act = [cur] + [i for i in sorted(transit) if i != cur]
+                fin_ = [i for i in sorted(finished) if i != cur]
+                fterms.append(cpair(clist([cpair(cfloat(float(Fraction(prog[i], D))), cfloat(mw[i])) for i in act], str),
+                                    cpair(clist([cfloat(mw[i]) for i in fin_], str), cfloat(tp))))
+                fcases.append(pcase)
+            ctx.sample(dict(shown, direct=direct), limit=10)
+    finally:
+        mon.close()
+    fbad = ctx.model_mismatches(FHEADER, fterms, FCHECKER, chunk=150, name='fmodel_mal_%d' % direct)
+    for i in fbad:
+        ctx.disagree(fcases[i], 'see case term', fterms[i][:300],
+                     'C20 total progress: CheckStatus vs Weights.FloatModel.fprogress (bit for bit)')
+    chk = MCHECKER if direct else WCHECKER
+    bad = ctx.model_mismatches(HEADER, terms, chk, chunk=150, name='model_mal_%d' % direct)
+    for k, i in enumerate(bad):
+        what = ('mon_used (fst (fst %s)) (snd (fst %s))' if direct else
+                '(inject (fst (fst %s)) (snd (fst %s)), used (fst (fst %s)) (snd (fst %s)))').replace('%s', terms[i])
+        ctx.disagree(tcases[i], terms[i][-400:], ctx.model_eval(HEADER, what)[:600] if k < 3 else '',
+                     'C20 malformed weights: ' + ('StatusMonitor.__init__ vs Weights.Model.mon_used' if direct else
+                                                  'inject_default_values + StatusMonitor.__init__ vs Weights.Model.inject/used'))
+
+
+def _raw_doc(raws):
+    comps = [{'name': 'c%d' % i, 'stage': i, 'command': {'executable': 'ls'}} for i in range(len(raws))]
+    return {'components': comps,
+            'status-report': dict((i, {'stage-weight': x}) for i, x in enumerate(raws) if x is not MISSING)}
+
+
+def malformed_cases(rng, tier):
+    ns = list(range(1, 41)) + [60, 99, 101, 333]
+    reps = 3 if tier == 'quick' else 14
+    load, direct = list(MALFORMED_CORPUS), list(DIRECT_CORPUS)
+    for n in ns:
+        for _ in range(reps):
+            c, ent, _shape = gen_malformed(rng, n)
+            load.append((c, ent))
+        for _ in range(1 if tier == 'quick' else 5):
+            c, ent, _shape = gen_malformed(rng, n, direct=True)
+            direct.append((c, ent))
+    for n in ([1000] if tier == 'quick' else [1000, 1001, 1500, 2000]):
+        c, ent, _shape = gen_malformed(rng, n)
+        load.append((c, ent))
+    return load, direct
+
+
+# ----------------------------------------------------------------------------------------------------------
+# The REAL Controller: which stages CheckStatus counts while nodes are added to stages that had finished
+SCHECKER = 'check_scase'
+CTL_CORPUS = [
+    # a loop over three stages after a plain stage, two iterations (a stage other than the current one finishes, then
+    # the next iteration adds a node to it); the same with two components per stage; a loop over two stages
+    {'pre': 1, 'K': 3, 'width': [1, 1, 1], 'iters': 2, 'post': 0, 'weights': [200, 200, 500, 100], 'seed': 1},
+    {'pre': 0, 'K': 2, 'width': [1, 2], 'iters': 2, 'post': 1, 'weights': None, 'seed': 2},
+]
+
+
+def gen_ctl(rng):
+    K = rng.choice([1, 2, 3, 3, 3, 4])
+    pre, post = rng.randint(0, 1), rng.randint(0, 1)
+    n = pre + K + post
+    cuts = sorted(rng.randint(0, 1000) for _ in range(n - 1))
+    w = [b - a for a, b in zip([0] + cuts, cuts + [1000])]
+    return {'pre': pre, 'K': K, 'width': [rng.randint(1, 2) for _ in range(K)], 'iters': rng.randint(1, 3), 'post': post,
+            'weights': w if rng.random() < 0.7 else None, 'seed': rng.randint(0, 10 ** 6)}
+
+
+def _explore_controller(ctx, cases):
+    import c20_ctl
+    terms, tcases = [], []
+    for case in cases:
+        obs = c20_ctl.drive(case)
+        ctx.case(['controller', case], True)
+        ctx.count('controller:loop_over_%d_stages' % case['K'])
+        ctx.count('controller:iterations=%d' % case['iters'])
+        if 'error' in obs:
+            ctx.disagree({'controller': case}, obs, 'the workflow loads and the controller is driven to the end',
+                         'C20 controller driver (harness/c20_ctl.py)')
+            continue
+        w = [Fraction(repr(x)) for x in obs['weights']]
+        n = len(w)
+        seen_again = False
+        was_finished = set()
+        for ev in obs['events']:
+            shown = {'controller': case, 'event': ev['event'], 'finished': ev['finished'], 'transit': ev['transit'],
+                     'total': ev['total']}
+            both = sorted(set(ev['finished']) & set(ev['transit']))
+            if both:
+                ctx.fail(shown, 'stages %s are reported both finished and in transit' % both, [])
+            if was_finished & set(ev['transit']):
+                seen_again = True
+            was_finished |= set(ev['finished'])
+            tp = ev['total']
+            expect = sum(w[int(s)] * Fraction(d[0], d[1]) for s, d in ev['done'].items())
+            if tp is None or abs(Fraction(tp) - expect) > proved_bound(n, expect):
+                ctx.disagree(shown, tp, float(expect), 'C20 total progress with the real Controller: CheckStatus vs the '
+                             'weighted fraction of terminated components per stage (Weights.Model.total)')
+            if tp is not None and not (0 <= Fraction(tp) <= 1 + proved_bound(n, 1)):
+                ctx.fail(shown, 'total progress outside [0,1]', [])
+            if ev['event'] == 'end' and (tp is None or abs(Fraction(tp) - 1) > proved_bound(n, 1)):
+                ctx.fail(shown, 'total progress is not one when every stage completed', [])
+            terms.append(cpair(cpair(clist(list(range(n)), cZ),
+                                     clist([cpair(cZ(a), cbool(b)) for a, b in ev['nodes']], str)),
+                               cpair(clist(ev['finished'], cZ), clist(ev['transit'], cZ))))
+            tcases.append(shown)
+        if seen_again:
+            ctx.count('controller:a_finished_stage_became_active_again')
+        ctx.sample({'controller': case, 'events': [[e['event'], e['finished'], e['transit'], e['total']] for e in obs['events']][:12]},
+                   limit=12)
+    bad = ctx.model_mismatches(HEADER, terms, SCHECKER, chunk=300, name='model_ctl')
+    for i in bad:
+        ctx.disagree(tcases[i], terms[i][-300:], '', 'C20 stages counted: Controller.get_stages_finished/'
+                     'get_stages_in_transit vs Weights.Model.stages_finished/stages_in_transit')
 
 
 def _explore(ctx, cases, complete=False):
